@@ -485,6 +485,9 @@ def generate(repo):
     memo = tree(repo, 'spyne/util/memo.py')
     build = find_func(find_class(w11, 'Wsdl11', 'wsdl11.py'), 'build_interface_document', 'wsdl11.py')
     last = build.body[-1]
+    bstmts = [st for st in build.body
+              if not (isinstance(st, ast.Expr) and isinstance(st.value, ast.Constant) and isinstance(st.value.value, str))]
+    resets = sorted(U(st) for st in bstmts[:3])
     sortfn = find_func(find_class(base, 'ProtocolMixin', '_base.py'), 'sort_fields', '_base.py')
     stores = [n for n in ast.walk(sortfn) if isinstance(n, ast.Assign) and len(n.targets) == 1
               and U(n.targets[0]) == 'self._sortcache[cls]']
@@ -507,6 +510,9 @@ def generate(repo):
          only_written_in(w11, '__wsdl', {('Wsdl11', '__init__'), ('Wsdl11', 'build_interface_document')})),
         ('build_write_last', 'build_interface_document: the assignment of self.__wsdl is its last statement',
          isinstance(last, ast.Assign) and [U(t) for t in last.targets] == ['self.__wsdl']),
+        ('build_resets_first', 'build_interface_document starts by emptying the three node tables of the builder '
+                               '(port_type_dict, binding_dict, service_elt_dict), before anything is built',
+         resets == ['self.binding_dict = {}', 'self.port_type_dict = {}', 'self.service_elt_dict = {}']),
         ('attrcache_writers', '_base.py: _attrcache is assigned / filled only in __init__ / get_cls_attrs',
          only_written_in(base, '_attrcache', {('ProtocolMixin', '__init__'), ('ProtocolMixin', 'get_cls_attrs')}, True)),
         ('sortcache_writers', '_base.py: _sortcache is assigned / filled only in __init__ / sort_fields',
